@@ -35,7 +35,7 @@ LEAN_SOURCES = ["LenaModel/Model/C14.lean", "LenaModel/Lemmas/C14.lean", "LenaMo
                 "LenaModel/Model/C14Tok.lean", "LenaModel/Lemmas/C14Tok.lean", "LenaModel/Props/C14Tok.lean"]
 DRIVER = "drivers/C14.lean"
 THEOREMS = [
-    "Lena.C14.compose_eq_sequence",
+    "Lena.C14.compose_eq_sequence_partial",
     "Lena.C14.compose_eq_sequence_pinned_partial",
     "Lena.C14.compose_ne_sequence_pinned",
     "Lena.C14.UP_assoc",
@@ -73,7 +73,7 @@ THEOREMS = [
     "Lena.C14.evalExpr_wf",
     "Lena.C14.evalArgs_wf",
     "Lena.C14.exprTypes_sub",
-    "Lena.C14.compose_eq_sequence_expr",
+    "Lena.C14.compose_eq_sequence_expr_partial",
     "Lena.C14.leavesOKb_sound",
     "Lena.C14.namesOK2b_sound",
     "Lena.C14.typesOKb_sound",
@@ -105,7 +105,7 @@ ASSUMPTIONS = [
     "the model carries both versions of the condition in line 196 of variable.py (fx=true: `\"type\" in cvar or \"compose\" in "
     "cvar`, /repo since commit 0eafe05 = notes/C14_defect_1.patch; fx=false: `\"type\" in cvar`, the tree before it); the "
     "harness determines on one fixed input which of them the tree under test implements and asks the model for that one; "
-    "compose_eq_sequence is proved for fx=true, for fx=false only under the hypothesis that every non-last variable is typed "
+    "compose_eq_sequence_partial is proved for fx=true, for fx=false only under the hypothesis that every non-last variable is typed "
     "(compose_eq_sequence_pinned_partial) together with a machine-checked counterexample (compose_ne_sequence_pinned)",
     "theorem hypotheses (NamesOK, ChainWF: well-formed variable contexts, no attribute named like a type, no type called "
     "'compose'; LeavesOK for the distinct-types theorems) are evaluated by the driver (chainWFb) on every generated case and "
@@ -579,62 +579,78 @@ def _hist_of(c):
     return []
 
 
-def spec_wf(case):
-    """The hypotheses of the Lean theorems, decided on the specification alone: well-formed constructor calls; types are
-    non-empty strings that are neither reserved words nor attribute names anywhere in the case; no attribute named like
-    a reserved word (except name/type keywords of Combine); a pre-existing context.variable is absent or a dictionary
-    whose `compose` (if any) is a non-empty list of such type strings and whose `type` (if any) is one."""
-    if case.get("wild"):
-        return False
+def _spec(case):
+    """(in_scope, clash): `in_scope` = the case is inside the property's quantifier, decided on the specification alone:
+    well-formed constructor calls; types are non-empty strings that are not reserved words; no attribute named like a
+    reserved word (except name/type keywords of Compose/Combine); a pre-existing context.variable is absent or a
+    dictionary whose `compose` (if any) is a non-empty list of such type strings and whose `type` (if any) is one.
+    `clash` = some attribute (of a variable of the chain, or of the pre-existing context.variable) is named like a type
+    of the case: outside the hypotheses of the Lean theorems (`NoClash`), but inside the property ("arbitrary extra
+    attributes")."""
+    if case.get("wild") or _kind(case) != "chain":
+        return False, False
     attrs, types = set(), set()
     for e0 in case["chain"]:
         for e in _all_exprs(e0):
             if e["k"] == "other":
-                return False
+                return False, False
             kw = dict(e["kw"])
             if e["k"] == "var":
-                if e["getter"] in ("variable", "notcallable") or not isinstance(e["name"], str):
-                    return False
+                if not isinstance(e["getter"], dict) or not isinstance(e["name"], str):
+                    return False, False
                 if e["type"] != "":
                     if not _is_type(e["type"]):
-                        return False
+                        return False, False
                     types.add(e["type"])
             else:
                 if not e["args"]:
-                    return False
+                    return False, False
                 if "name" in kw and not isinstance(kw.pop("name"), str):
-                    return False
+                    return False, False
                 if e["k"] == "combine":
                     if "type" in kw:
                         t = kw.pop("type")
                         if not _is_type(t):
-                            return False
+                            return False, False
                         types.add(t)
             if set(kw) & set(RESERVED):
-                return False
+                return False, False
             attrs |= set(kw)
     for v in case["vals"]:
         c = v.get("c")
         if c is None:
             continue
         if "d" not in c:
-            return False
+            return False, False
         var = c["d"].get("variable")
         if var is None:
             continue
         if not (isinstance(var, dict) and "d" in var):
-            return False
+            return False, False
         d = var["d"]
         if "compose" in d:
             cl = d["compose"]
             if not (isinstance(cl, dict) and "l" in cl and cl["l"] and all(_is_type(t) for t in cl["l"])):
-                return False
+                return False, False
         if "type" in d and not _is_type(d["type"]):
-            return False
-        types |= set(_hist_of(c))
-    if types & (attrs | set(RESERVED)):
-        return False
-    return True
+            return False, False
+        hist = set(_hist_of(c))
+        types |= hist
+        attrs |= set(k for k in d if k not in hist and k not in ("name", "type", "compose"))
+    if types & set(RESERVED):
+        return False, False
+    return True, bool(types & attrs)
+
+
+def spec_wf(case):
+    """inside the property's quantifier AND inside the hypotheses of the Lean theorems (no attribute named like a type)"""
+    ok, clash = _spec(case)
+    return ok and not clash
+
+
+def spec_scope(case):
+    """inside the property's quantifier (attributes may be named like types)"""
+    return _spec(case)[0]
 
 
 def _var_of(o):
@@ -663,10 +679,11 @@ def _flat_leaf_chain(chain):
 
 
 def _chain_oracle(case, res):
-    wf = spec_wf(case)
+    wf = spec_wf(case)            # inside the hypotheses of the theorems
+    scope = spec_scope(case)      # inside the property's quantifier (attributes may be named like types)
     S, C = res["S"], res["C"]
     chain, vals = case["chain"], case["vals"]
-    if wf:
+    if scope:
         for which, r in (("Sequence", S), ("Compose", C)):
             if "e" in r:
                 return f"constructing the variables of a well-formed chain ({which}) raised {r['e']}"
@@ -689,7 +706,7 @@ def _chain_oracle(case, res):
                         f"{str(_strip(reps[0]))[:600]} / {str(_strip(reps[1]))[:600]}")
             o = reps[0]
             if "e" in o or "bad" in o:
-                if wf:
+                if scope:
                     return f"{which} applied to {v} gives {o}"
                 continue
             # same data as vn.getter(...v1.getter(x)...)
@@ -748,13 +765,13 @@ def _chain_oracle(case, res):
                         return (f"{e['k'].capitalize()}(..., {k}={w}): attribute {k!r} of the resulting variable is "
                                 f"{vc['d'].get(k)}")
     # ---- Compose(v1..vn) and the Sequence (v1..vn) give the same data and context ----------------------------
-    if wf:
+    if scope:
         for v, rs, rc in zip(vals, S["outs"], C["outs"]):
             if _strip(rs[0]) != _strip(rc[0]):
                 return (f"Compose and Sequence of the same {len(chain)} variables differ on {v}: "
                         f"Compose {_strip(rc[0])}, Sequence {_strip(rs[0])}")
     # ---- distinct non-empty types: every type sub-context persists, compose lists the types in order -----------
-    if wf:
+    if scope:
         leaves = _flat_leaf_chain(chain)
         if leaves is not None and all(l["type"] != "" for l in leaves):
             types = [l["type"] for l in leaves]
@@ -843,7 +860,11 @@ class _Gen:
         self.n += 1
         rng = self.rng
         ty = "" if rng.random() < 0.25 else rng.choice(types)
-        return _leaf(self.n, ty, _rand_kw(rng))
+        kw = _rand_kw(rng)
+        if rng.random() < 0.05:
+            # "arbitrary extra attributes": one that happens to be called like a type (notes/C14_defect_3.md)
+            kw[rng.choice(TYPES[:3] + PRETYPES)] = _rand_value(rng)
+        return _leaf(self.n, ty, kw)
 
     def expr(self, types, depth=0):
         rng = self.rng
@@ -970,6 +991,10 @@ def _exhaustive_cases(maxlen):
                 if n <= 3:
                     cases.append({"chain": [_leaf(1, "te"), comb, _leaf(2, "tf", {"a": 1})], "vals": vals2})
                     cases.append({"chain": [comb, {"k": "compose", "args": [_leaf(3, "te"), comb], "kw": {}}], "vals": vals2})
+    # an attribute named like a type the value carries (notes/C14_defect_3.md; Lean `compose_ne_sequence_attr_clash`)
+    clash_val = {"d": 1, "c": {"d": {"variable": {"d": {"name": "z", "type": "p0", "p0": _sub("z")}}}}}
+    cases.append({"chain": [_leaf(1, "ta", {"p0": 3}), _leaf(2, "tb")], "vals": [clash_val]})
+    cases.append({"chain": [_leaf(1, "ta"), _leaf(2, "tb", {"ta": {"l": [1]}}), _leaf(3, "tc")], "vals": [vals[0], clash_val]})
     # keyword arguments of Compose (the `name` keyword has no effect: Lean `compose_name_keyword_ignored`)
     for kw in ({"name": "foo"}, {"name": "foo", "a": 1}, {"a": {"l": [1]}, "u": "mm"}, {"type": "tg"}):
         for args in ([_leaf(1, "ta")], [_leaf(1, "ta", {"a": 2}), _leaf(2, "tb")], [_leaf(1, ""), _leaf(2, "tb"), _leaf(3, "")]):
@@ -1058,8 +1083,14 @@ def _chain_classify(case, res):
     return labels
 
 
+KNOWN_CLASH_SIGNATURE = "attribute named like a type: Compose and Sequence differ"
+
+
 def signature(case, failure):
-    """one report per kind of failure (the text before the first colon, without the variant's name)"""
+    """one report per kind of failure (the text before the first colon, without the variant's name); every failure of a
+    case in which an attribute is named like a type is the finding of notes/C14_defect_3.md"""
+    if _kind(case) == "chain" and _spec(case)[1]:
+        return KNOWN_CLASH_SIGNATURE
     if _kind(case) == "tok":
         return "tok|" + (failure or "").split(":", 1)[-1].strip()[:60].split("tokens")[0]
     if _kind(case) == "attr":
@@ -1387,9 +1418,13 @@ def _tok_run_impl(case):
         st["var_changed"] = sorted(ids[i] for i in var_objs if ids[i] in changed)
         st["shared"] = sorted(ids[i] for i in _reach(out[1], set()) if i in var_objs)
         st["same_ctx"] = ctx_in is None or out[1] is ctx_in
-        st["frame"] = [k for k, (i, w) in frame_in.items()
-                       if k not in out[1] or out[1][k] != w or (i is not None and id(out[1][k]) != i)] + \
+        st["frame"] = [k for k, (i, w) in frame_in.items() if k not in out[1] or out[1][k] != w] + \
                       [k for k in out[1] if k != "variable" and k not in frame_in]
+        st["frame_id"] = [k for k, (i, w) in frame_in.items()
+                          if k in out[1] and i is not None and id(out[1][k]) != i]
+        if ctx_in is not None:
+            st["in_frame"] = [k for k, (i, w) in frame_in.items() if k not in ctx_in or ctx_in[k] != w] + \
+                             [k for k in ctx_in if k != "variable" and k not in frame_in]
         st["outside_spine"] = sorted(t for t in changed if t < known and alive[t] is not None and id(alive[t]) not in spine)
         steps.append(st)
         x = out
@@ -1442,14 +1477,19 @@ def _tok_compare(case, res, replies):
         nexts.append(b["next"])
         if not b["sep"]:
             return f"step {i}: the hypothesis sepB of the token theorems does not hold on a generated case"
+        if from_model(b["erased"], names) != a["erased"]:
+            return f"step {i}: erased result {b['erased']} vs impl {a['erased']}"
+        if not a["same_ctx"] or a["frame_id"]:
+            # the implementation returned a new context object / new objects under the other keys: allowed by the
+            # property; the identity structure (which the token theorems describe for the in-place implementation of
+            # line 216) cannot be compared any further
+            return None
         old = set(ren.values())
         if sorted(ren.get(t, -1) for t in b["ctoks"]) != a["ctoks"]:
             return f"step {i}: objects of the value's context: impl {a['ctoks']} vs model ctxTokens {b['ctoks']}"
         c = _tv_from_model(b["c"], names, ren)
         if c != a["c"]:
             return f"step {i}: identities of the result: impl {a['c']} vs model {c}"
-        if from_model(b["erased"], names) != a["erased"]:
-            return f"step {i}: erased result {b['erased']} vs impl {a['erased']}"
         w = set(ren[t] for t in b["w"] if t in ren)
         if not set(a["changed"]) <= w:
             return f"step {i}: objects changed {a['changed']} but the model writes only {sorted(w)}"
@@ -1463,7 +1503,11 @@ def _tok_compare(case, res, replies):
 
 def _tok_oracle(case, res):
     """Applying a variable changes neither the variable nor any part of the value's context other than
-    context.variable -- on the objects themselves."""
+    context.variable -- on the objects of the VARIABLE (no object of var_context is written to, none is reachable from
+    the returned context, whose later changes would then change the variable) and on the VALUES of the other keys (of
+    the returned context and of the caller's context object).  Whether the implementation updates the caller's context
+    in place or returns a copy is not part of the statement (it is compared with the model in `_tok_compare` only as
+    long as the implementation works in place)."""
     if "e" in res:
         return None
     for i, st in enumerate(res["steps"]):
@@ -1471,16 +1515,13 @@ def _tok_oracle(case, res):
             continue
         if st["var_changed"]:
             return f"application {i + 1}: objects of the variable's var_context were changed in place: tokens {st['var_changed']}"
-        if st["shared"]:
+        if st["shared"] and not case.get("alias"):
             return (f"application {i + 1}: the returned context shares mutable objects with the variable's var_context "
                     f"(tokens {st['shared']}): a later change of the context changes the variable")
-        if not st["same_ctx"]:
-            return f"application {i + 1}: the returned context is not the value's context object"
         if st["frame"]:
-            return f"application {i + 1}: keys {st['frame']} of the value's context other than 'variable' changed"
-        if st["outside_spine"]:
-            return (f"application {i + 1}: objects other than the context, the old context.variable and its compose list "
-                    f"were changed in place: tokens {st['outside_spine']}")
+            return f"application {i + 1}: keys {st['frame']} of the returned context other than 'variable' changed"
+        if st.get("in_frame"):
+            return f"application {i + 1}: keys {st['in_frame']} of the value's own context other than 'variable' changed"
     return None
 
 
